@@ -232,6 +232,13 @@ class NP:
 
     asanyarray = asarray
 
+    def ascontiguousarray(self, a, dtype=None, **kw):
+        # numpy semantics: base-class ndarray (a masked array loses its mask and exposes the stored data)
+        if isinstance(a, rnp.ma.MaskedArray):
+            a = a.data
+        r = self.asarray(a, dtype=dtype, **kw)
+        return r if r.ndim else r.reshape(1)
+
     @staticmethod
     def _to_obj(a):
         if isinstance(a, rnp.ma.MaskedArray):
